@@ -132,9 +132,11 @@ class SchemaBuilder(
         ignore_first_ref: bool,
         ref_factory: RefFactory,
         refs: Collection[str],
+        aliaser: Optional[Aliaser] = None,
     ):
         super().__init__(default_conversion)
         self.additional_properties = additional_properties
+        self.aliaser = aliaser
         self._ignore_first_ref = ignore_first_ref
         self.ref_factory = ref_factory
         self.refs = refs
@@ -266,6 +268,7 @@ class SchemaBuilder(
                     fall_back_on_any=False,
                     check_type=True,
                     conversion=field.serialization,
+                    aliaser=self.aliaser,
                 )
         return result
 
@@ -652,10 +655,11 @@ def _refs_schema(
     refs: Mapping[str, AnyType],
     ref_factory: RefFactory,
     additional_properties: bool,
+    aliaser: Optional[Aliaser] = None,
 ) -> Mapping[str, JsonSchema]:
     return {
         ref: builder(
-            additional_properties, default_conversion, True, ref_factory, refs
+            additional_properties, default_conversion, True, ref_factory, refs, aliaser
         ).visit(tp)
         for ref, tp in refs.items()
     }
@@ -684,12 +688,17 @@ def _schema(
     version, ref_factory, all_refs = _default_version(version, ref_factory, all_refs)
     refs = _extract_refs([(tp, conversion)], default_conversion, builder, all_refs)
     json_schema = builder(
-        additional_properties, default_conversion, False, ref_factory, refs
+        additional_properties, default_conversion, False, ref_factory, refs, aliaser
     ).visit_with_conv(tp, conversion)
     json_schema = full_schema(json_schema, schema)
     if add_defs and version.defs:
         defs = _refs_schema(
-            builder, default_conversion, refs, ref_factory, additional_properties
+            builder,
+            default_conversion,
+            refs,
+            ref_factory,
+            additional_properties,
+            aliaser,
         )
         if defs:
             json_schema["$defs"] = defs
@@ -864,6 +873,7 @@ def definitions_schema(
         deserialization_refs,
         ref_factory,
         additional_properties,
+        aliaser,
     )
     serialization_schemas = _refs_schema(
         SerializationSchemaBuilder,
@@ -871,6 +881,7 @@ def definitions_schema(
         serialization_refs,
         ref_factory,
         additional_properties,
+        aliaser,
     )
     schemas = {}
     for ref in deserialization_schemas.keys() | serialization_schemas.keys():
